@@ -263,7 +263,7 @@ Proof.
   destruct (plain_packet p Hb (parse_sound p v Hb Hp)) as (qls & qt & lxa & lxn & lxr & R2 & Hrest).
   destruct (reading_fun _ _ _ _ _ _ _ _ _ _ _ R1 R2) as (-> & -> & -> & -> & ->).
   cbv zeta in Hrest. rewrite <- Ep in Hrest.
-  destruct Hrest as (_ & _ & lxa' & lxn' & lxr' & R2' & _ & _ & _ & _ & P).
+  destruct Hrest as (_ & _ & lxa' & lxn' & lxr' & R2' & _ & _ & _ & _ & P & _).
   exists qls, qt, lxa', lxn', lxr'. split; [exact R2'|]. split; [exact P|].
   assert (H12 : 12 <= length p) by (destruct R2 as [(qe & _ & _ & Hc & _) _ _ _ _]; destruct Hc; lia).
   assert (L12 : length (firstn 12 p) = 12) by (rewrite firstn_length; lia).
